@@ -9,6 +9,34 @@ from . import detsched as ds
 from . import lean_audit
 
 
+class GroupResult(object):
+    def __init__(self, stdout):
+        self.stdout = stdout
+
+
+def run_group(args, cwd, env, timeout):
+    """run a helper process in its own session and always kill the whole process group afterwards: the real children it
+    started (shells, Python workers) must not outlive it — an orphaned python_worker.py spins on its closed stdin for ever"""
+    import signal
+    import subprocess
+    p = subprocess.Popen(args, cwd=cwd, env=env, stdout=subprocess.PIPE, stderr=subprocess.DEVNULL, start_new_session=True)
+    try:
+        out, _ = p.communicate(timeout=timeout)
+    except subprocess.TimeoutExpired:
+        out = b""
+    finally:
+        try:
+            os.killpg(p.pid, signal.SIGKILL)
+        except (ProcessLookupError, PermissionError):
+            pass
+        try:
+            out2, _ = p.communicate(timeout=10)
+            out = out or out2
+        except Exception:   # noqa
+            pass
+    return GroupResult(out or b"")
+
+
 def mk_chooser(kind, seed, est):
     if kind == "pct":
         return ds.pct_chooser(seed, depth=1 + seed % 3, est_steps=max(est, 20))
